@@ -303,7 +303,8 @@ func (s *v4Server) rmDynamicLease(lease *dhcpsvc.Lease) (err error) {
 			continue
 		}
 
-		if !l.IsStatic && l.Hostname == lease.Hostname {
+		if !l.IsStatic && l.Hostname != "" && l.Hostname == lease.Hostname {
+			delete(s.hostsIndex, l.Hostname)
 			l.Hostname = ""
 		}
 
